@@ -1,7 +1,35 @@
 (* C13 — Partition shards are disjoint, cover the selection, and are stable as documented.
-   Statements only; proofs are in Proofs/Partition.v. *)
-From NextestModel Require Import Base.Str Model.Xxh64 Model.Filter Model.Partition Proofs.Partition.
+   Statements only; proofs are in Proofs/Partition.v (one listing pass) and
+   Proofs/PartitionWhole.v (the whole two-pass listing TestList::process_output).
+
+   Vocabulary.
+     process_output pb pre ni ig   the model of TestList::process_output for one binary:
+                                   [ni]/[ig] are the names printed by `--list` without / with
+                                   `--ignored` (any order), [pre nm ign] is the verdict of all other
+                                   filters on (name, ignored flag), [pb] the partition (None = no
+                                   --partition). It sorts both listings, drops from the first the
+                                   names of the second (repair c4776a2), walks each with its own
+                                   partitioner and inserts into a name-ordered map.
+     matched l                     the selected names of a listing (in name order)
+     matched_class c l             those of them whose ignored flag is c
+     class_names c ni ig           the names walked by the non-ignored (c = false) / ignored
+                                   (c = true) pass; characterised by C13_listing_names
+     accepted pre c names          the names of [names] that pass all other filters
+     stride k n l                  the elements of l at 0-based positions = k (mod n)
+     hash_shard n nm               xxh64 (utf8 nm) 0 mod n + 1
+     valid_shards m n = true       1 <= m <= n, what parse_shards enforces (C13_parse_valid);
+                                   every statement that mentions m - 1 or mod n carries it, so none
+                                   relies on truncating subtraction or on x mod 0.
+   The count statements about the whole listing assume the two listings duplicate-free (a test
+   binary never prints a name twice; with a repeated name the later call overwrites the earlier
+   one in the map while both advance the counter — C13_listing_count_needs_nodup). The hash
+   statements need no such assumption. *)
+From Coq Require Import Sorting.Sorted.
+From NextestModel Require Import Base.Str Model.Xxh64 Model.Filter Model.Partition Proofs.Partition
+     Proofs.PartitionWhole.
 Open Scope N_scope.
+
+(* ================================================================== one listing pass *)
 
 (* Disjoint + cover, per listing pass, for both partitioner kinds: a name that passes all other
    filters is selected by exactly one shard m in [1,n] (its [owner]); ... *)
@@ -31,9 +59,14 @@ Print Assumptions C13_rejected_in_no_shard.
    filters' verdict on that name alone -- whatever else is in the list, in whatever state. *)
 Theorem C13_hash_stable :
   forall pre ign m n names cur,
+    valid_shards m n = true ->
     pass (Some (mkpb PHash m n)) pre ign names cur =
-    map (fun nm => (nm, (ign, hash_verdict pre ign m n nm))) names.
-Proof. exact pass_hash_map. Qed.
+    map (fun nm => (nm, (ign, match pre nm ign with
+                              | Some r => Mismatch r
+                              | None => if hash_shard n nm =? m then Matches
+                                        else Mismatch MPartition
+                              end))) names.
+Proof. exact pass_hash_valid. Qed.
 Print Assumptions C13_hash_stable.
 
 Theorem C13_hash_is_xxh64_mod_n :
@@ -43,17 +76,14 @@ Theorem C13_hash_is_xxh64_mod_n :
 Proof. exact hash_unique_shard. Qed.
 Print Assumptions C13_hash_is_xxh64_mod_n.
 
-(* Count sharding: shard m is every n-th accepted name, in list (= name) order, beginning with
-   the m-th. *)
+(* Count sharding: shard m of one pass is every n-th accepted name, in list order, beginning
+   with the m-th. *)
 Theorem C13_count_stride :
-  forall pre ign m n names, 0 < n ->
+  forall pre ign m n names,
+    valid_shards m n = true ->
     matched (pass (Some (mkpb PCount m n)) pre ign names 0) =
     stride (m - 1) n (accepted pre ign names).
-Proof.
-  intros pre ign m n names Hn.
-  rewrite pass_count_eq by assumption. rewrite matched_pass_count.
-  unfold stride. rewrite stride_from_c by assumption. rewrite N.mod_0_l by lia. reflexivity.
-Qed.
+Proof. exact pass_count_stride_valid. Qed.
 Print Assumptions C13_count_stride.
 
 Theorem C13_count_sizes :
@@ -62,8 +92,194 @@ Theorem C13_count_sizes :
 Proof. exact stride_sizes_differ_by_at_most_one. Qed.
 Print Assumptions C13_count_sizes.
 
-(* Non-vacuity and regression witnesses (closed computations). *)
+(* exact size of a stride: floor(len/n), plus one for the first (len mod n) of them *)
+Theorem C13_stride_length :
+  forall k n l, 0 < n -> k < n ->
+    N.of_nat (length (stride k n l)) =
+    N.of_nat (length l) / n + (if k <? N.of_nat (length l) mod n then 1 else 0).
+Proof. exact stride_length. Qed.
+Print Assumptions C13_stride_length.
+
+(* ================================================================== the whole listing *)
+
+(* the result is a map keyed by name (strictly increasing names) *)
+Theorem C13_listing_is_a_map :
+  forall pb pre ni ig, StronglySorted slt (map fst (process_output pb pre ni ig)).
+Proof. exact process_output_ksorted. Qed.
+Print Assumptions C13_listing_is_a_map.
+
+(* the names walked by each pass, independently of how the implementation computes them: the
+   ignored pass sees the ignored listing, the non-ignored pass the names of the first listing
+   that are not in the ignored listing (c4776a2); each in strictly increasing name order *)
+Theorem C13_listing_names :
+  forall c ni ig,
+    (forall nm, In nm (class_names c ni ig) <-> if c then In nm ig else In nm ni /\ ~ In nm ig) /\
+    (NoDup ni -> NoDup ig -> StronglySorted slt (class_names c ni ig)).
+Proof. exact class_names_spec. Qed.
+Print Assumptions C13_listing_names.
+
+(* the selection of a listing is the disjoint union of its two classes *)
+Theorem C13_listing_selected_split :
+  forall l,
+    (forall nm, In nm (matched l) <-> In nm (matched_class false l) \/ In nm (matched_class true l)) /\
+    length (matched l) = (length (matched_class false l) + length (matched_class true l))%nat.
+Proof. exact matched_split. Qed.
+Print Assumptions C13_listing_selected_split.
+
+(* for any partition: the selected names of each class are those selected by that class's own
+   pass (no interference between the passes; false for the pre-repair listing, see
+   C13_listing_unfixed_refuted) *)
+Theorem C13_listing_classes :
+  forall pb pre ni ig, NoDup ni -> NoDup ig -> forall c,
+    matched_class c (process_output pb pre ni ig) =
+    matched (pass pb pre c (class_names c ni ig) 0).
+Proof. exact process_output_classes. Qed.
+Print Assumptions C13_listing_classes.
+
+(* without --partition: per class, exactly the names that pass all other filters *)
+Theorem C13_listing_unpartitioned :
+  forall pre ni ig c, NoDup ni -> NoDup ig ->
+    matched_class c (process_output None pre ni ig) = accepted pre c (class_names c ni ig).
+Proof. exact listing_none_classes. Qed.
+Print Assumptions C13_listing_unpartitioned.
+
+Theorem C13_listing_unpartitioned_In :
+  forall pre ni ig nm,
+    In nm (matched (process_output None pre ni ig)) <->
+    exists c, In nm (class_names c ni ig) /\ pre nm c = None.
+Proof. exact listing_none_In. Qed.
+Print Assumptions C13_listing_unpartitioned_In.
+
+(* COUNT, whole listing: within the binary, separately for the non-ignored and the ignored
+   tests, shard m is every n-th test in name order, beginning with the m-th, of those that
+   pass all other filters *)
+Theorem C13_listing_count :
+  forall pre ni ig m n c,
+    valid_shards m n = true -> NoDup ni -> NoDup ig ->
+    matched_class c (process_output (Some (mkpb PCount m n)) pre ni ig) =
+    stride (m - 1) n (matched_class c (process_output None pre ni ig)).
+Proof. exact listing_count_classes. Qed.
+Print Assumptions C13_listing_count.
+
+(* HASH, whole listing: exactly the tests passing all other filters whose
+   xxh64(name, 0) mod n + 1 is m (as lists, in name order; duplicates allowed) *)
+Theorem C13_listing_hash :
+  forall pre ni ig m n,
+    valid_shards m n = true ->
+    matched (process_output (Some (mkpb PHash m n)) pre ni ig) =
+    filter (fun nm => hash_shard n nm =? m) (matched (process_output None pre ni ig)).
+Proof. exact listing_hash_eq. Qed.
+Print Assumptions C13_listing_hash.
+
+(* adding, removing or filtering other tests never moves a test to another hash shard *)
+Theorem C13_listing_hash_never_moves :
+  forall pre ni ig pre' ni' ig' m n nm,
+    valid_shards m n = true ->
+    In nm (matched (process_output None pre ni ig)) ->
+    In nm (matched (process_output None pre' ni' ig')) ->
+    (In nm (matched (process_output (Some (mkpb PHash m n)) pre ni ig)) <->
+     In nm (matched (process_output (Some (mkpb PHash m n)) pre' ni' ig'))).
+Proof. exact listing_hash_never_moves. Qed.
+Print Assumptions C13_listing_hash_never_moves.
+
+(* shards 1..n of the two-pass listing: union = the selection without partitioning ... *)
+Theorem C13_listing_cover :
+  forall k pre ni ig n nm, 1 <= n -> NoDup ni -> NoDup ig ->
+    (In nm (matched (process_output None pre ni ig)) <->
+     exists m, 1 <= m <= n /\ In nm (matched (process_output (Some (mkpb k m n)) pre ni ig))).
+Proof. exact listing_shard_union. Qed.
+Print Assumptions C13_listing_cover.
+
+(* ... and pairwise disjoint *)
+Theorem C13_listing_disjoint :
+  forall k pre ni ig m1 m2 n nm,
+    valid_shards m1 n = true -> valid_shards m2 n = true -> NoDup ni -> NoDup ig ->
+    In nm (matched (process_output (Some (mkpb k m1 n)) pre ni ig)) ->
+    In nm (matched (process_output (Some (mkpb k m2 n)) pre ni ig)) ->
+    m1 = m2.
+Proof. exact listing_shard_disjoint. Qed.
+Print Assumptions C13_listing_disjoint.
+
+(* sizes of the count shards of one binary. [class_total pre ni ig c] is the number of tests of
+   class c that pass all other filters. Exact: *)
+Theorem C13_listing_count_class_size :
+  forall pre ni ig m n c,
+    valid_shards m n = true -> NoDup ni -> NoDup ig ->
+    N.of_nat (length (matched_class c (process_output (Some (mkpb PCount m n)) pre ni ig))) =
+    class_total pre ni ig c / n + (if m <=? class_total pre ni ig c mod n then 1 else 0).
+Proof. exact listing_count_class_size. Qed.
+Print Assumptions C13_listing_count_class_size.
+
+(* per (binary, ignored class): any two shards differ by at most one *)
+Theorem C13_listing_count_sizes_per_class :
+  forall pre ni ig m1 m2 n c,
+    valid_shards m1 n = true -> valid_shards m2 n = true -> NoDup ni -> NoDup ig ->
+    N.of_nat (length (matched_class c (process_output (Some (mkpb PCount m1 n)) pre ni ig))) <=
+    N.of_nat (length (matched_class c (process_output (Some (mkpb PCount m2 n)) pre ni ig))) + 1.
+Proof. exact listing_count_class_balance. Qed.
+Print Assumptions C13_listing_count_sizes_per_class.
+
+(* per binary: at most two (both classes restart at shard 1) ... *)
+Theorem C13_listing_count_sizes_per_binary_le2 :
+  forall pre ni ig m1 m2 n,
+    valid_shards m1 n = true -> valid_shards m2 n = true -> NoDup ni -> NoDup ig ->
+    N.of_nat (length (matched (process_output (Some (mkpb PCount m1 n)) pre ni ig))) <=
+    N.of_nat (length (matched (process_output (Some (mkpb PCount m2 n)) pre ni ig))) + 2.
+Proof. exact listing_count_binary_balance2. Qed.
+Print Assumptions C13_listing_count_sizes_per_binary_le2.
+
+(* ... and "at most one per binary" (the property's wording) holds exactly outside the class
+   F21 = both classes have a non-zero remainder modulo n (known_findings.json): *)
+Theorem C13_count_sizes_per_binary_outside_known :
+  forall pre ni ig m1 m2 n,
+    f21_class pre ni ig n = false ->
+    valid_shards m1 n = true -> valid_shards m2 n = true -> NoDup ni -> NoDup ig ->
+    N.of_nat (length (matched (process_output (Some (mkpb PCount m1 n)) pre ni ig))) <=
+    N.of_nat (length (matched (process_output (Some (mkpb PCount m2 n)) pre ni ig))) + 1.
+Proof. exact listing_count_binary_outside_known. Qed.
+Print Assumptions C13_count_sizes_per_binary_outside_known.
+
+(* inside the class shard 1 has exactly two tests more than shard n *)
+Theorem C13_count_sizes_per_binary_known_is_two :
+  forall pre ni ig n,
+    1 <= n -> f21_class pre ni ig n = true -> NoDup ni -> NoDup ig ->
+    valid_shards 1 n = true /\ valid_shards n n = true /\
+    N.of_nat (length (matched (process_output (Some (mkpb PCount 1 n)) pre ni ig))) =
+    N.of_nat (length (matched (process_output (Some (mkpb PCount n n)) pre ni ig))) + 2.
+Proof. exact listing_count_binary_known. Qed.
+Print Assumptions C13_count_sizes_per_binary_known_is_two.
+
+(* the class is empty whenever the other filters reject one ignored class altogether, which is
+   the case under --run-ignored default (c0 = true) and --run-ignored only (c0 = false) *)
+Theorem C13_known_class_needs_both_classes :
+  forall pre ni ig n c0, (forall nm, pre nm c0 <> None) -> f21_class pre ni ig n = false.
+Proof. exact f21_single_class. Qed.
+Print Assumptions C13_known_class_needs_both_classes.
+
+(* ================================================================== M/N *)
+
+Theorem C13_valid_shards_iff : forall m n, valid_shards m n = true <-> 1 <= m <= n.
+Proof. exact valid_shards_iff. Qed.
+Print Assumptions C13_valid_shards_iff.
+
+(* whatever PartitionerBuilder::from_str accepts satisfies 1 <= m <= n < 2^64; in particular
+   n = 0 never reaches a partitioner (the real `% total_shards` would panic on it) *)
+Theorem C13_parse_valid :
+  forall s pb, parse_partition s = Some pb ->
+    valid_shards (pb_shard pb) (pb_total pb) = true /\ pb_shard pb < M64 /\ pb_total pb < M64.
+Proof. exact parse_partition_valid. Qed.
+Print Assumptions C13_parse_valid.
+
+Theorem C13_parse_never_zero_shards :
+  forall s pb, parse_partition s = Some pb ->
+    1 <= pb_shard pb <= pb_total pb /\ pb_total pb <> 0.
+Proof. exact parse_partition_total_nonzero. Qed.
+Print Assumptions C13_parse_never_zero_shards.
+
+(* ================================================================== closed witnesses *)
+
 Definition pre_default : str -> bool -> option mismatch := fun _ ign => filter_ignored RIDefault ign.
+Definition pre_all : str -> bool -> option mismatch := fun _ ign => filter_ignored RIAll ign.
 Definition nA : str := [97; 95; 105]. (* a_i *)
 Definition nB : str := [98].
 Definition nC : str := [99; 95; 105]. (* c_i *)
@@ -79,4 +295,118 @@ Example C13_F4_unfixed_witness :
   matched (process_output_unfixed (Some (mkpb PCount 1 2)) pre_default [nA; nB; nC; nD] [nA; nC]) = []
   /\ matched (process_output_unfixed (Some (mkpb PCount 2 2)) pre_default [nA; nB; nC; nD] [nA; nC])
      = [nB; nD].
+Proof. split; vm_compute; reflexivity. Qed.
+
+(* the statement of C13_listing_count is false for the pre-repair listing (on the F4 witness,
+   shard 1 of 2, non-ignored class: nothing instead of [b]) -- although every theorem about a
+   single pass holds for its passes *)
+Example C13_listing_unfixed_refuted :
+  ~ (forall pre ni ig m n c,
+        valid_shards m n = true -> NoDup ni -> NoDup ig ->
+        matched_class c (process_output_unfixed (Some (mkpb PCount m n)) pre ni ig) =
+        stride (m - 1) n (matched_class c (process_output_unfixed None pre ni ig))).
+Proof.
+  intros H.
+  specialize (H pre_default [nA; nB; nC; nD] [nA; nC] 1 2 false eq_refl).
+  assert (D4 : NoDup [nA; nB; nC; nD]).
+  { repeat constructor; cbn [In]; intros F; repeat destruct F as [F|F]; try discriminate F; exact F. }
+  assert (D2 : NoDup [nA; nC]).
+  { repeat constructor; cbn [In]; intros F; repeat destruct F as [F|F]; try discriminate F; exact F. }
+  specialize (H D4 D2). vm_compute in H. discriminate H.
+Qed.
+
+(* so is the statement of C13_listing_classes (the passes interfere) *)
+Example C13_listing_classes_unfixed_refuted :
+  matched_class false
+    (process_output_unfixed (Some (mkpb PCount 1 2)) pre_default [nA; nB; nC; nD] [nA; nC]) = [] /\
+  stride (1 - 1) 2
+    (matched_class false (process_output_unfixed None pre_default [nA; nB; nC; nD] [nA; nC])) = [nB].
+Proof. split; vm_compute; reflexivity. Qed.
+
+(* the seeded shape "one count partitioner shared by both passes" is told apart as well: under
+   --run-ignored all with tests a, b(ignored), nextest's shard 1 of 2 holds both; the shared
+   counter would move b to shard 2 *)
+Example C13_listing_shared_partitioner_refuted :
+  matched_class true (process_output (Some (mkpb PCount 1 2)) pre_all [[97]; [98]] [[98]]) = [[98]] /\
+  stride (1 - 1) 2 (matched_class true (process_output None pre_all [[97]; [98]] [[98]])) = [[98]] /\
+  matched_class true (process_output_shared (Some (mkpb PCount 1 2)) pre_all [[97]; [98]] [[98]]) = [].
+Proof. repeat split; vm_compute; reflexivity. Qed.
+
+(* F21: "shard sizes differ by at most one per binary" is false under --run-ignored all: tests a
+   and b(ignored), count:1/2 selects both, count:2/2 none *)
+Example C13_count_sizes_per_binary_refuted :
+  ~ (forall pre ni ig m1 m2 n,
+        valid_shards m1 n = true -> valid_shards m2 n = true -> NoDup ni -> NoDup ig ->
+        N.of_nat (length (matched (process_output (Some (mkpb PCount m1 n)) pre ni ig))) <=
+        N.of_nat (length (matched (process_output (Some (mkpb PCount m2 n)) pre ni ig))) + 1).
+Proof.
+  intros H.
+  assert (D2 : NoDup [[97]; [98]]).
+  { repeat constructor; cbn [In]; intros F; repeat destruct F as [F|F]; try discriminate F; exact F. }
+  assert (D1 : NoDup [[98]]).
+  { repeat constructor; cbn [In]; intros F; exact F. }
+  specialize (H pre_all [[97]; [98]] [[98]] 1 2 2 eq_refl eq_refl D2 D1).
+  vm_compute in H. apply H. reflexivity.
+Qed.
+
+Example C13_count_sizes_per_binary_witness :
+  matched (process_output (Some (mkpb PCount 1 2)) pre_all [[97]; [98]] [[98]]) = [[97]; [98]] /\
+  matched (process_output (Some (mkpb PCount 2 2)) pre_all [[97]; [98]] [[98]]) = [] /\
+  f21_class pre_all [[97]; [98]] [[98]] 2 = true /\
+  f21_class pre_default [[97]; [98]] [[98]] 2 = false.
+Proof. repeat split; vm_compute; reflexivity. Qed.
+
+(* the duplicate-free hypothesis of the count statements is needed: a name printed twice is
+   counted twice and stored once *)
+Example C13_listing_count_needs_nodup :
+  matched_class false (process_output (Some (mkpb PCount 1 2)) pre_default [[97]; [97]; [98]] []) = [[98]] /\
+  stride (1 - 1) 2 (matched_class false (process_output None pre_default [[97]; [97]; [98]] [])) = [[97]] /\
+  matched_class false (process_output (Some (mkpb PCount 2 2)) pre_default [[97]; [97]; [98]] []) = [[97]] /\
+  stride (2 - 1) 2 (matched_class false (process_output None pre_default [[97]; [97]; [98]] [])) = [[98]].
+Proof. repeat split; vm_compute; reflexivity. Qed.
+
+(* without the hypothesis 1 <= m <= n the model's arithmetic is not the code's: shard 0 would
+   behave as shard 1 (truncating subtraction) and n = 0 would be total (x mod 0 = x in N) where
+   the code panics; parse_shards rejects both *)
+Example C13_invalid_shards_are_rejected :
+  parse_partition [99; 111; 117; 110; 116; 58; 48; 47; 50] = None /\       (* count:0/2 *)
+  parse_partition [99; 111; 117; 110; 116; 58; 49; 47; 48] = None /\       (* count:1/0 *)
+  parse_partition [104; 97; 115; 104; 58; 51; 47; 50] = None /\            (* hash:3/2 *)
+  parse_partition [104; 97; 115; 104; 58; 48; 47; 48] = None /\            (* hash:0/0 *)
+  parse_partition [99; 111; 117; 110; 116; 58; 50; 47; 51]
+    = Some (mkpb PCount 2 3) /\                                            (* count:2/3 *)
+  parse_partition [104; 97; 115; 104; 58; 43; 49; 47; 48; 50]
+    = Some (mkpb PHash 1 2) /\                                             (* hash:+1/02 *)
+  parse_partition [99; 111; 117; 110; 116; 58; 49; 47; 50; 47; 51] = None /\ (* count:1/2/3 *)
+  parse_partition [99; 111; 117; 110; 116; 58; 49; 47; 49; 56; 52; 52; 54; 55; 52; 52; 48; 55; 51;
+                   55; 48; 57; 53; 53; 49; 54; 49; 54] = None /\           (* count:1/2^64 *)
+  parse_partition [99; 111; 117; 110; 116; 58; 49; 47; 49; 56; 52; 52; 54; 55; 52; 52; 48; 55; 51;
+                   55; 48; 57; 53; 53; 49; 54; 49; 53]
+    = Some (mkpb PCount 1 18446744073709551615).                           (* count:1/(2^64-1) *)
+Proof. repeat split; vm_compute; reflexivity. Qed.
+
+(* xxHash64 with seed 0, pinned on reference vectors (the first three are the published XXH64
+   test values; the last two were computed with the xxhash-rust crate nextest links, through the
+   harness): "", "a", "abc", "The quick brown fox jumps over the lazy dog" (43 bytes: one
+   32-byte stripe, one 8-byte lane, three tail bytes), and a 66-byte test path (two stripes and
+   a 2-byte tail) *)
+Example C13_xxh64_vectors :
+  xxh64 [] 0 = 17241709254077376921 /\                                      (* 0xEF46DB3751D8E999 *)
+  xxh64 [97] 0 = 15154266338359012955 /\                                    (* 0xD24EC4F1A98C6E5B *)
+  xxh64 [97; 98; 99] 0 = 4952883123889572249 /\                             (* 0x44BC2CF5AD770999 *)
+  xxh64 [84; 104; 101; 32; 113; 117; 105; 99; 107; 32; 98; 114; 111; 119; 110; 32; 102; 111; 120;
+         32; 106; 117; 109; 112; 115; 32; 111; 118; 101; 114; 32; 116; 104; 101; 32; 108; 97; 122;
+         121; 32; 100; 111; 103] 0 = 802816344064684476 /\                  (* 0x0B242D361FDA71BC *)
+  xxh64 (utf8 [110; 101; 120; 116; 101; 115; 116; 95; 114; 117; 110; 110; 101; 114; 58; 58; 112;
+               97; 114; 116; 105; 116; 105; 111; 110; 58; 58; 116; 101; 115; 116; 115; 58; 58; 99;
+               111; 117; 110; 116; 95; 97; 110; 100; 95; 104; 97; 115; 104; 95; 115; 104; 97; 114;
+               100; 115; 95; 97; 114; 101; 95; 115; 116; 97; 98; 108; 101]) 0
+    = 2577100650569099888.                                                  (* 0x23C3B3633B996A70 *)
+Proof. repeat split; vm_compute; reflexivity. Qed.
+
+(* and the hash shard of a name is that value modulo n, plus one *)
+Example C13_hash_shard_example :
+  hash_shard 3 [97; 98; 99] = 4952883123889572249 mod 3 + 1 /\
+  matched (process_output (Some (mkpb PHash (hash_shard 3 [97; 98; 99]) 3)) pre_default [[97; 98; 99]] [])
+    = [[97; 98; 99]].
 Proof. split; vm_compute; reflexivity. Qed.
